@@ -128,10 +128,12 @@ func (t *TokenBucketFilter) run() {
 
 			return
 		case chunk := <-t.c:
-			if time.Since(lastRefill) > t.minRefillDuration {
-				t.refillTokens(time.Since(lastRefill))
-				lastRefill = time.Now()
-			}
+			// Credit exactly the time that has passed since the last
+			// arrival, every time: crediting only after minRefillDuration
+			// handed out the time a full bucket had spent idle a second time.
+			now := time.Now()
+			t.refillTokens(now.Sub(lastRefill))
+			lastRefill = now
 			t.queue.push(chunk)
 			t.drainQueue()
 		}
@@ -141,13 +143,12 @@ func (t *TokenBucketFilter) run() {
 func (t *TokenBucketFilter) refillTokens(dt time.Duration) {
 	t.mutex.Lock()
 	defer t.mutex.Unlock()
-	m := 1000.0 / float64(dt.Milliseconds())
-	add := (float64(t.rate) / m) / 8.0
+	add := float64(t.rate) * dt.Seconds() / 8.0
 	t.currentTokensInBucket = math.Min(float64(t.maxBurst), t.currentTokensInBucket+add)
 	t.log.Tracef(
-		"add=(%v / %v) / 8 = %v, currentTokensInBucket=%v, maxBurst=%v",
+		"add=(%v * %v) / 8 = %v, currentTokensInBucket=%v, maxBurst=%v",
 		t.rate,
-		m,
+		dt.Seconds(),
 		add,
 		t.currentTokensInBucket,
 		t.maxBurst,
